@@ -195,6 +195,16 @@ def build(inp) -> Case:
     src = dict(pos=ql(held_pos), neg=ql(held_neg), ep=inp["ep"], en=inp["en"], sc=inp["sc"], ec=inp["ec"],
                sorted=1)
     gstate = np.random.get_state()
+    retained, used_cfgs = [], []
+
+    def retain(r, run, what, cfg):
+        """keep the sample object alive together with a copy of what it held when it was returned: a sample must stay
+        the well-formed resample it was, whatever is drawn from the same source afterwards"""
+        if r[0] == "ok" and isinstance(r[1], Scores) and r[1] is not s:
+            o_ = r[1]
+            retained.append((run, what, o_, np.array(o_.pos, copy=True), np.array(o_.neg, copy=True),
+                             int(o_.nb_easy_pos), int(o_.nb_easy_neg)))
+            used_cfgs.append(cfg)
 
     def observed(r, run, what):
         """wire keys of an observed outcome; pre-issues for malformed samples"""
@@ -258,6 +268,7 @@ def build(inp) -> Case:
             seed = run["script"]["real"]
             np.random.seed(seed)
             r1 = common.call(s.bootstrap_sample, cfg)
+            retain(r1, run, what, cfg)
             np.random.seed(seed)
             r2 = common.call(s.bootstrap_sample, cfg)
             k1, o1 = observed(r1, run, what)
@@ -281,6 +292,7 @@ def build(inp) -> Case:
         sc_ = run["script"]
         with ScriptedRNG(seed=sc_["seed"], policy=adversarial(sc_["mode"]) if sc_["mode"] else None) as rr:
             r = common.call(s.bootstrap_sample, cfg)
+        retain(r, run, what, cfg)
         bad = [e for e in rr.trace if e["raised"] is None and not rng_script.in_range(e, e["resp"])]
         if bad:
             pre.append(Issue("ERR", "script", f"harness produced an out-of-support answer: {bad[0]}", "script"))
@@ -289,6 +301,21 @@ def build(inp) -> Case:
                           **rng_script.encode_requests(rr.trace, "q"), **keys))
         judges.append(("scripted", run, what, rr.trace, o, keys if r[0] == "ok" else {"ores": r[1], "msg": r[2]}))
 
+    # one more draw per configuration used (different seed), then every sample returned earlier must be untouched
+    for k_, cfg_ in enumerate(used_cfgs[:6]):
+        np.random.seed(977 + k_)
+        common.call(s.bootstrap_sample, cfg_)
+    for run_, what_, o_, p0_, n0_, ep0_, en0_ in retained:
+        now_p, now_n = np.asarray(o_.pos), np.asarray(o_.neg)
+        if (now_p.shape != p0_.shape or now_n.shape != n0_.shape or now_p.tobytes() != p0_.tobytes()
+                or now_n.tobytes() != n0_.tobytes() or (int(o_.nb_easy_pos), int(o_.nb_easy_neg)) != (ep0_, en0_)):
+            srt = bool(np.all(np.diff(now_p) >= 0)) and bool(np.all(np.diff(now_n) >= 0))
+            pre.append(Issue("PROPFAIL", "sorted" if not srt else "membership",
+                             f"{what_}: the returned sample changed when further samples were drawn from the same source "
+                             f"(pos {p0_.tolist()[:6]} -> {now_p.tolist()[:6]}, neg {n0_.tolist()[:6]} -> {now_n.tolist()[:6]}; "
+                             f"still ordered: {srt}): it is no longer the resample that was returned",
+                             _sig(run_, "retained")))
+            break
     np.random.set_state(gstate)
     if _snapshot(s) != snap0:
         pre.append(Issue("PROPFAIL", "source-unchanged", "the source object changed during sampling", "source"))
